@@ -58,8 +58,8 @@ MUTANTS = [
     # ---- C15.3 end anchor is end-of-string (the planned '$' repair of the CHK verifier still admits cap+'\n')
     M("chkv-dollar-repair", U, "BASE32STR_256bits+b':'+NUMBER+b':'+NUMBER+b':'+NUMBER)\n",
       "BASE32STR_256bits+b':'+NUMBER+b':'+NUMBER+b':'+NUMBER+b'$')\n", "C15.3"),
-    M("benign-chk-backslash-Z", U, "BASE32STR_256bits+b':'+NUMBER+b':'+NUMBER+b':'+NUMBER+\n                         b'$')",
-      "BASE32STR_256bits+b':'+NUMBER+b':'+NUMBER+b':'+NUMBER+\n                         br'\\Z')", None),
+    M("benign-chk-backslash-Z", U, "STRING_RE=re.compile(b'^URI:CHK:'+BASE32STR_128bits+b':'+\n                         BASE32STR_256bits+b':'+NUMBER+b':'+NUMBER+b':'+NUMBER+\n                         b'$')",
+      "STRING_RE=re.compile(b'^URI:CHK:'+BASE32STR_128bits+b':'+\n                         BASE32STR_256bits+b':'+NUMBER+b':'+NUMBER+b':'+NUMBER+\n                         br'\\Z')", None),
     M("benign-lit-fullmatch", U, LIT_INIT, LIT_INIT.replace("search(uri)", "fullmatch(uri)"), None),
     # ---- C15.4 groups <-> template <-> codecs
     M("mdmf-ro-groups-swapped", U,
@@ -78,7 +78,7 @@ MUTANTS = [
       "    def __init__(self, writekey, fingerprint):\n        self.writekey = writekey[:16]\n        self.readkey = hashutil.ssk_readkey_hash(writekey)\n        self.storage_index = hashutil.ssk_storage_index_hash(self.readkey)\n        assert len(self.storage_index) == 16\n        self.fingerprint = fingerprint[:16]\n\n    @classmethod\n    def init_from_string(cls, uri):\n        mo = cls.STRING_RE.search(uri)\n        if not mo:\n            raise BadURIError(\"%r doesn't look like a %s cap\" % (uri, cls))\n        return cls(base32.a2b(mo.group(1)), base32.a2b(mo.group(2)))\n\n    def to_string(self):\n        assert isinstance(self.writekey, bytes)\n        assert isinstance(self.fingerprint, bytes)\n        return b'URI:SSK:", "C15.4"),
     M("benign-ssk-template-from-base-string", U, "return b'URI:SSK:%s:%s' % (base32.b2a(self.writekey),",
       "return self.BASE_STRING + b'%s:%s' % (base32.b2a(self.writekey),", None),
-    M("benign-number-backslash-d", U, "NUMBER=b'([0-9]+)'", "NUMBER=br'(\\d+)'", None),
+    M("benign-number-backslash-d", U, "NUMBER=b'(0|[1-9][0-9]*)'", "NUMBER=br'(0|[1-9]\\d*)'", None),
     M("benign-lit-rename-local", U, LIT_INIT, LIT_INIT.replace("mo", "found"), None),
     M("benign-b32-split-repeat", U, "BASE32STR_128bits = b'(%s{25}%s)' % (base32.BASE32CHAR, base32.BASE32CHAR_3bits)",
       "BASE32STR_128bits = b'(%s{20}%s{5}%s)' % (base32.BASE32CHAR, base32.BASE32CHAR, base32.BASE32CHAR_3bits)", None),
@@ -114,8 +114,8 @@ MUTANTS = [
       "    BASE_STRING_RE=re.compile(b'^URI:DIR2-CHK-Verifier')\n    INNER_URI_CLASS=CHKFileVerifierURI", "C15.7"),
     M("dir-lit-base-copy-paste", U, "    BASE_STRING=b'URI:DIR2-LIT:'", "    BASE_STRING=b'URI:DIR2-CHK:'", "C15.7"),
     M("dir-verifier-drops-inner", U,
-      "            _assert(IVerifierURI.providedBy(filenode_uri))\n        self._filenode_uri = filenode_uri\n\n    def get_filenode_cap(self):\n        return self._filenode_uri\n\n    def is_mutable(self):\n        return False\n\n    def is_readonly(self):\n        return True\n\n    def get_readonly(self):\n        return self\n\n\n@implementer(IVerifierURI)",
-      "            _assert(IVerifierURI.providedBy(filenode_uri))\n        self._filenode_uri = filenode_uri.get_verify_cap()\n\n    def get_filenode_cap(self):\n        return self._filenode_uri\n\n    def is_mutable(self):\n        return False\n\n    def is_readonly(self):\n        return True\n\n    def get_readonly(self):\n        return self\n\n\n@implementer(IVerifierURI)", "C15.7"),
+      "    INNER_URI_CLASS : Type[IVerifierURI] = SSKVerifierURI\n\n    def __init__(self, filenode_uri=None):\n        if filenode_uri:\n            _assert(IVerifierURI.providedBy(filenode_uri))\n        self._filenode_uri = filenode_uri\n",
+      "    INNER_URI_CLASS : Type[IVerifierURI] = SSKVerifierURI\n\n    def __init__(self, filenode_uri=None):\n        if filenode_uri:\n            _assert(IVerifierURI.providedBy(filenode_uri))\n        self._filenode_uri = filenode_uri.get_verify_cap()\n", "C15.7"),
     M("benign-dir-to-string-len", U,
       "        mo = re.match(self.INNER_URI_CLASS.BASE_STRING, fnuri)\n        assert mo, fnuri\n        bits = fnuri[mo.end():]",
       "        assert fnuri.startswith(self.INNER_URI_CLASS.BASE_STRING), fnuri\n        bits = fnuri[len(self.INNER_URI_CLASS.BASE_STRING):]", None),
@@ -153,6 +153,37 @@ MUTANTS = [
       "            if not can_be_writeable:\n                kind = \"URI:SSK file writecap\"\n            else:\n                return WriteableSSKFileURI.init_from_string(s)\n", None),
     M("benign-deep-immutable-conditional", U, "    can_be_mutable = can_be_writeable = not deep_immutable\n",
       "    can_be_mutable = can_be_writeable = (False if deep_immutable else True)\n", None),
+    # ---- C15.10 constructor / to_string accept what the parser decodes (mutation-sweep survivors of the widened sweep)
+    M("chk-si-guard-inverted", U, "        if not len(self.storage_index) == 16: # sha256",
+      "        if len(self.storage_index) == 16: # sha256", "C15.10"),
+    M("chk-si-guard-wrong-length", U, "        if not len(self.storage_index) == 16: # sha256",
+      "        if not len(self.storage_index) == 32: # sha256", "C15.10"),
+    M("chkv-si-assert-is-hash-length", U,
+      "                 needed_shares, total_shares, size):\n        assert len(storage_index) == 16\n",
+      "                 needed_shares, total_shares, size):\n        assert len(storage_index) == 32\n", "C15.10"),
+    M("ssk-ro-si-assert-flipped", U,
+      "        self.storage_index = hashutil.ssk_storage_index_hash(self.readkey)\n        assert len(self.storage_index) == 16\n        self.fingerprint = fingerprint\n\n    @classmethod\n    def init_from_string(cls, uri):\n        mo = cls.STRING_RE.search(uri)\n        if not mo:\n            raise BadURIError(\"%r doesn't look like a %s cap\" % (uri, cls))\n        return cls(base32.a2b(mo.group(1)), base32.a2b(mo.group(2)))\n\n    def to_string(self):\n        assert isinstance(self.readkey, bytes)\n        assert isinstance(self.fingerprint, bytes)\n        return b'URI:SSK-RO:",
+      "        self.storage_index = hashutil.ssk_storage_index_hash(self.readkey)\n        assert len(self.storage_index) != 16\n        self.fingerprint = fingerprint\n\n    @classmethod\n    def init_from_string(cls, uri):\n        mo = cls.STRING_RE.search(uri)\n        if not mo:\n            raise BadURIError(\"%r doesn't look like a %s cap\" % (uri, cls))\n        return cls(base32.a2b(mo.group(1)), base32.a2b(mo.group(2)))\n\n    def to_string(self):\n        assert isinstance(self.readkey, bytes)\n        assert isinstance(self.fingerprint, bytes)\n        return b'URI:SSK-RO:", "C15.10"),
+    M("lit-data-guard-inverted", U, "        if data is not None:\n            assert isinstance(data, bytes)",
+      "        if data is None:\n            assert isinstance(data, bytes)", "C15.10"),
+    M("lit-data-must-be-text", U, "        if data is not None:\n            assert isinstance(data, bytes)",
+      "        if data is not None:\n            assert isinstance(data, str)", "C15.10"),
+    M("chk-to-string-size-assert-negated", U,
+      "        assert isinstance(self.size, int)\n\n        return (b'URI:CHK:%s",
+      "        assert not isinstance(self.size, int)\n\n        return (b'URI:CHK:%s", "C15.10"),
+    M("sskv-to-string-wants-text", U,
+      "        assert isinstance(self.fingerprint, bytes)\n        return b'URI:SSK-Verifier:",
+      "        assert isinstance(self.fingerprint, str)\n        return b'URI:SSK-Verifier:", "C15.10"),
+    M("benign-chk-si-guard-not-equal", U, "        if not len(self.storage_index) == 16: # sha256",
+      "        if len(self.storage_index) != 16: # sha256", None),
+    M("benign-chkv-si-assert-operands-swapped", U,
+      "                 needed_shares, total_shares, size):\n        assert len(storage_index) == 16\n",
+      "                 needed_shares, total_shares, size):\n        assert 16 == len(storage_index)\n", None),
+    M("benign-lit-data-guard-not-is", U, "        if data is not None:\n            assert isinstance(data, bytes)",
+      "        if not data is None:\n            assert isinstance(data, (bytes,))", None),
+    M("benign-chk-si-guard-hoisted", U,
+      "        if not len(self.storage_index) == 16: # sha256 hash truncated to 128\n",
+      "        si_len = len(self.storage_index)\n        if not si_len == hashutil.KEYLEN: # sha256 hash truncated to 128\n", None),
     # ---- vanished anchor
     M("vanish-from-string", U, "def from_string(u, deep_immutable=False", "def from_stringX(u, deep_immutable=False", "ANALYSIS-ERROR"),
 ]
